@@ -9,9 +9,11 @@ Spec:   IterClient.tla (requirement: admissible outcome as a function of the
 Binding: histories of Iter calls on one real connection (all 7 operations x
         use_pull_operations True/False/None x server pull enabled/disabled,
         toggled between calls x MaxObjectCount x result sizes x exhaust /
-        close() after k / drop x server fault in the j-th Pull x FilterQuery /
-        ContinueOnError), each with a shadow call on a fresh connection; TLC
-        judges every event.
+        close() after k / drop x server fault in the j-th Pull x filter
+        argument class (none, DMTF:FQL + query, unsupported language, query
+        without language, language without query) x OperationTimeout class
+        (None, 0, 1..40, above the server maximum) x ContinueOnError), each
+        with a shadow call on a fresh connection; TLC judges every event.
 """
 import copy
 import gc
@@ -34,6 +36,23 @@ TRAD = {1: "EnumerateInstances", 2: "EnumerateInstanceNames",
         6: "AssociatorNames", 7: "ExecQuery"}
 UPO = {"T": True, "F": False, "N": None}
 MOCV = {"zero": 0, "neg": -3, "none": None, "badtype": "5"}
+# concrete members of the spec's argument classes (IterClient.FiltClasses /
+# OtClasses); the mock server's documented limits: only 'DMTF:FQL',
+# OperationTimeout <= pywbem_mock.config.OPEN_MAX_TIMEOUT (40)
+BAD_LANGS = ("WQL", "DMTF:CQL", "XYZ")
+QUERIES = ("k > 0", "k = 1", "x")
+
+
+def concretize_args(rng, c):
+    """fix the concrete filter / timeout values of call c (the shadow call
+    on the fresh connection must use the same ones)"""
+    c["lang"] = {"fql": "DMTF:FQL", "lonly": "DMTF:FQL",
+                 "badlang": rng.choice(BAD_LANGS)}.get(c["fqc"])
+    c["query"] = rng.choice(QUERIES) if c["fqc"] in ("fql", "badlang",
+                                                     "qonly") else None
+    c["otv"] = {"none": None, "zero": 0, "small": rng.randint(1, 40),
+                "big": rng.choice([41, 100, 3600])}[c["ot"]]
+    return c
 
 
 def new_conn(upo, disabled):
@@ -158,9 +177,13 @@ def do_iter(conn, c, variant, with_fault=True):
         kw["MaxObjectCount"] = c["mocn"]
     else:
         kw["MaxObjectCount"] = MOCV[c["moc"]]
-    if c["fq"] and fam != 7:
-        kw["FilterQueryLanguage"] = "DMTF:FQL"
-        kw["FilterQuery"] = "k > 0"
+    if fam != 7:
+        if c.get("lang") is not None:
+            kw["FilterQueryLanguage"] = c["lang"]
+        if c.get("query") is not None:
+            kw["FilterQuery"] = c["query"]
+    if c.get("otv") is not None:
+        kw["OperationTimeout"] = c["otv"]
     if c["coe"]:
         kw["ContinueOnError"] = False
     yielded = []
@@ -215,13 +238,32 @@ def directed_scripts():
     listed sticky-flag findings in every run, for each Iter operation with a
     learnable flag."""
     out = []
-    base = dict(fq=False, coe=False, moc="ok", mocn=1, n=3, tradok=True,
-                consume="exhaust", k=0, fault=0)
+    base = dict(fqc="none", ot="none", coe=False, moc="ok", mocn=1, n=3,
+                tradok=True, consume="exhaust", k=0, fault=0)
     for fam in (1, 2, 3, 4, 5, 6):
         c = dict(base, fam=fam)
-        out.append([(False, c), (True, dict(c, fq=True))])      # learned F
-        out.append([(True, c), (False, c)])                     # learned T
-        out.append([(True, c), (False, dict(c, coe=True))])     # learned T
+        out.append(("N", [(False, c), (True, dict(c, fqc="fql"))]))  # learned F
+        out.append(("N", [(True, c), (False, c)]))                  # learned T
+        out.append(("N", [(True, c), (False, dict(c, coe=True))]))  # learned T
+    return out
+
+
+def directed_open_params():
+    """One-call histories for the cells (server capability x open-parameter
+    class) of the requirement in which the server would reject the open
+    parameters IF it supported pull: every Iter operation x use_pull_operations
+    None/True x server pull off/on x {unsupported language, query without
+    language, language without query, OperationTimeout above the maximum}
+    (combinations of the classes come from the random histories)."""
+    out = []
+    base = dict(fqc="none", ot="none", coe=False, moc="ok", mocn=2, n=3,
+                tradok=True, consume="exhaust", k=0, fault=0)
+    for fam in (1, 2, 3, 4, 5, 6):
+        for upo in ("N", "T"):
+            for srv in (False, True):
+                for kw in (dict(fqc="badlang"), dict(fqc="qonly"),
+                           dict(fqc="lonly"), dict(ot="big")):
+                    out.append((upo, [(srv, dict(base, fam=fam, **kw))]))
     return out
 
 
@@ -244,7 +286,12 @@ def run_history(rng, upo, ncalls, variant, script=None):
         srv = not disabled
         fam = rng.choice(list(ITER))
         variant = rng.randint(0, 419)
-        c = dict(fam=fam, fq=rng.random() < 0.25, coe=rng.random() < 0.15,
+        c = dict(fam=fam,
+                 fqc=rng.choice(["none"] * 13 + ["fql"] * 3 +
+                                ["badlang", "qonly", "lonly", "fql"]),
+                 ot=rng.choice(["none"] * 6 + ["zero", "small", "small",
+                                               "big"]),
+                 coe=rng.random() < 0.15,
                  moc=rng.choice(["ok"] * 9 + ["zero", "neg", "none",
                                               "badtype"]),
                  mocn=rng.choice([1, 1, 2, 3, 5, 100]),
@@ -258,7 +305,9 @@ def run_history(rng, upo, ncalls, variant, script=None):
             fam = c["fam"]
             variant = 0
         if fam == 7:
-            c["fq"] = False
+            c["fqc"] = "none"
+        c["fq"] = c["fqc"] != "none"
+        concretize_args(rng, c)
         # reference result: the traditional operation on the same server
         args, tkw = target(fam, c["n"], c["tradok"], variant)
         try:
@@ -282,7 +331,7 @@ def run_history(rng, upo, ncalls, variant, script=None):
         ids = [keys.index(c14.obj_key(o)) + 1 if c14.obj_key(o) in keys else 99
                for o in obs["yielded"]]
         ev = dict(op="Iter", fam=fam, upo=upo, srv=srv, fq=c["fq"],
-                  coe=c["coe"], moc=c["moc"], mocn=c["mocn"],
+                  fqc=c["fqc"], ot=c["ot"], coe=c["coe"], moc=c["moc"], mocn=c["mocn"],
                   trad=list(range(1, len(keys) + 1)), tradok=tradok,
                   consume=c["consume"], k=c["k"], faulted=obs["faulted"],
                   res=obs["res"], code=obs["code"], yielded=ids,
@@ -387,7 +436,7 @@ def run_overlap(rng, upo):
         ids = [it["keys"].index(c14.obj_key(o)) + 1
                if c14.obj_key(o) in it["keys"] else 99 for o in it["yielded"]]
         ev = dict(op="Iter", fam=it["fam"], upo=upo, srv=True, fq=False,
-                  coe=False, moc="ok", mocn=it["mocn"],
+                  fqc="none", ot="none", coe=False, moc="ok", mocn=it["mocn"],
                   trad=list(range(1, len(it["keys"]) + 1)),
                   tradok=it["tradok"],
                   consume="close" if it["closed"] else "exhaust",
@@ -424,7 +473,17 @@ def run(ctx):
                        "(use_pull_operations=None) - the design-level "
                        "counterexample behind the two known findings"),
                       ("IterClientImplLeak.cfg",
-                       "no CloseEnumeration in finally")):
+                       "no CloseEnumeration in finally"),
+                      ("IterClientImplParamsFirst.cfg",
+                       "server validates the open parameters before it checks "
+                       "that pull operations are enabled "
+                       "(use_pull_operations=None)"),
+                      ("IterClientImplParamsFirstT.cfg",
+                       "the same with use_pull_operations=True"),
+                      ("IterClientImplPinnedTimeoutFormat.cfg",
+                       "a rejected OperationTimeout surfaces as ValueError "
+                       "(pinned tree: broken format string in the mock's "
+                       "_validate_open_params)")):
         r = ctx.tlc("IterClientImpl", cfg, must_pass=False, count=False,
                     label="must fail: " + what)
         if r.violated != "ImplRefinesReq":
@@ -433,8 +492,8 @@ def run(ctx):
         sens.append("%s violates ImplRefinesReq as required (%s)" % (cfg, what))
     ctx.extra["sensitivity"] = sens
     nh = 240 if quick else 5000
-    hists = [run_history(ctx.rng, "N", 2, 0, script=sc)
-             for sc in directed_scripts()]
+    hists = [run_history(ctx.rng, upo, 2, 0, script=sc)
+             for upo, sc in directed_scripts() + directed_open_params()]
     for i in range(nh):
         upo = ["N", "N", "T", "F"][i % 4]
         hists.append(run_history(ctx.rng, upo, ctx.rng.randint(3, 9), i))
@@ -495,6 +554,13 @@ def run(ctx):
         "fallback paths are bound",
         "the mock ignores FilterQuery, so results with FilterQuery equal the "
         "unfiltered traditional result",
+        "open parameters a pull-capable server may reject (unsupported filter "
+        "language, FilterQuery without language, any OperationTimeout): the "
+        "rejection must surface as CIMError (any status code; with "
+        "FilterQuery/ContinueOnError the documented ValueError of the "
+        "fallback is admissible too) or the call must deliver exactly the "
+        "traditional result; a server WITHOUT pull must be handled as for "
+        "plain calls whatever the open parameters are",
         "host is required on yielded paths only on the fallback path "
         "(Appendix A)",
     ]
